@@ -21,22 +21,22 @@ process api { run /bin/cat; encoder json; }
 neighbor 127.0.0.2 {
   router-id 1.2.3.4; local-address 127.0.0.1; local-as 65001; peer-as 65002;
   api { processes [ api ]; }
-  family { ipv4 unicast; ipv6 unicast; }
+  family { ipv4 unicast; ipv6 unicast; ipv4 flow; }
 }
 neighbor 127.0.0.3 {
   router-id 1.2.3.4; local-address 127.0.0.1; local-as 65001; peer-as 65003;
   api { processes [ api ]; }
-  family { ipv4 unicast; ipv6 unicast; }
+  family { ipv4 unicast; ipv6 unicast; ipv4 flow; }
 }
 neighbor 127.0.0.4 {
   router-id 5.6.7.8; local-address 127.0.0.1; local-as 65009; peer-as 65002;
   api { processes [ api ]; }
-  family { ipv4 unicast; ipv6 unicast; }
+  family { ipv4 unicast; ipv6 unicast; ipv4 flow; }
 }
 neighbor 127.0.0.20 {
   router-id 1.2.3.40; local-address 127.0.0.1; local-as 650010; peer-as 650020;
   api { processes [ api ]; }
-  family { ipv4 unicast; ipv6 unicast; }
+  family { ipv4 unicast; ipv6 unicast; ipv4 flow; }
 }
 """
 # n4: every one of its values has the corresponding value of n1 as a string prefix (a selector names whole values)
@@ -49,6 +49,7 @@ NEIGHBORS = {
 
 # (name, v6 line, v4 line, expected terminal reply, effect on the model: (op, prefix, target set) or None)
 ALL = ('n1', 'n2', 'n3', 'n4')
+FLOW_NLRI = 'flow destination-ipv4 10.13.0.0/24'
 COMMANDS = [
     ('annA', 'peer * announce route 10.1.0.0/24 next-hop 2.2.2.2', 'announce route 10.1.0.0/24 next-hop 2.2.2.2', 'done', ('add', '10.1.0.0/24', ALL)),
     ('wdrA', 'peer * withdraw route 10.1.0.0/24', 'withdraw route 10.1.0.0/24', 'done', ('del', '10.1.0.0/24', ALL)),
@@ -71,6 +72,15 @@ COMMANDS = [
     ('split', 'peer * announce route 10.8.0.0/24 next-hop 2.2.2.2 split /25', 'announce route 10.8.0.0/24 next-hop 2.2.2.2 split /25', 'done', ('add', ('10.8.0.0/25', '10.8.0.128/25'), ALL)),
     ('inline', 'peer * group announce route 10.9.0.0/24 next-hop 2.2.2.2 ; announce route 10.9.1.0/24 next-hop 2.2.2.2', None, 'done', ('add', ('10.9.0.0/24', '10.9.1.0/24'), ALL)),
     ('inline1', 'peer 127.0.0.3 group announce route 10.9.0.0/24 next-hop 2.2.2.2 ; withdraw route 10.1.0.0/24', None, 'done', ('multi', (('add', '10.9.0.0/24', ('n2',)), ('del', '10.1.0.0/24', ('n2',))))),
+    # the same prefix as annA with another attribute set
+    ('annA2', 'peer * announce route 10.1.0.0/24 next-hop 2.2.2.2 med 7 community [ 65000:7 ]', 'announce route 10.1.0.0/24 next-hop 2.2.2.2 med 7 community [ 65000:7 ]', 'done', ('add', '10.1.0.0/24', ALL)),
+    # nested syntax, accepted and refused inside the braces; a list that ends badly; flow rules accepted and refused: what a
+    # refused command had already parsed must not show up in a later command
+    ('nested', 'peer * announce route 10.11.0.0/24 { next-hop 2.2.2.2 ; med 5 ; }', 'announce route 10.11.0.0/24 { next-hop 2.2.2.2 ; med 5 ; }', 'done', ('add', '10.11.0.0/24', ALL)),
+    ('nestedbad', 'peer * announce route 10.12.0.0/24 { next-hop 2.2.2.2 ; local-preference 33 ; bogus 3 ; }', 'announce route 10.12.0.0/24 { next-hop 2.2.2.2 ; local-preference 33 ; bogus 3 ; }', 'error', None),
+    ('listbad', 'peer * announce route 10.12.1.0/24 next-hop 2.2.2.2 community [ 1:2 bogus ]', 'announce route 10.12.1.0/24 next-hop 2.2.2.2 community [ 1:2 bogus ]', 'error', None),
+    ('flow', 'peer * announce flow route { match { destination 10.13.0.0/24; } then { discard; } }', 'announce flow route { match { destination 10.13.0.0/24; } then { discard; } }', 'done', ('add', FLOW_NLRI, ALL)),
+    ('flowbad', 'peer * announce flow route { match { destination 10.14.0.0/24; source-port =80; } then { bogus; } }', 'announce flow route { match { destination 10.14.0.0/24; source-port =80; } then { bogus; } }', 'error', None),
     ('show', 'rib show out', 'show adj-rib out', 'done', None),
     ('version', 'system version', 'version', 'done', None),
     ('comment', '# peer * announce route 10.3.0.0/24 next-hop 2.2.2.2', '# announce route 10.3.0.0/24 next-hop 2.2.2.2', 'done', None),
@@ -87,7 +97,8 @@ COMMANDS = [
 ]
 # the commands every sequence length is crossed over / the ones only crossed up to length 2 (with everything)
 CORE = ('annA', 'wdrA', 'annB1', 'ann6', 'badval', 'badsyntax', 'nonexthop', 'unknown', 'nopeer', 'eor', 'flush', 'ping')
-STATEFUL = ('clear', 'attrs2', 'attrsbad', 'split', 'inline', 'inline1', 'show', 'version', 'comment', 'empty', 'gstart', 'gend', 'bare', 'barewd', 'barebad', 'ackoff', 'ackon', 'silence')
+PARSE3 = ('nested', 'nestedbad', 'listbad', 'flow', 'flowbad', 'annA', 'annA2', 'annB1', 'wdrA', 'attrs2', 'attrsbad')
+STATEFUL = ('annA2', 'nested', 'nestedbad', 'listbad', 'flow', 'flowbad', 'clear', 'attrs2', 'attrsbad', 'split', 'inline', 'inline1', 'show', 'version', 'comment', 'empty', 'gstart', 'gend', 'bare', 'barewd', 'barebad', 'ackoff', 'ackon', 'silence')
 BLOCK3 = ('gstart', 'gend', 'bare', 'barewd', 'barebad', 'annA', 'wdrA', 'unknown', 'ackoff', 'ackon', 'silence')
 BLOCK4 = ('gstart', 'gend', 'bare', 'barewd', 'barebad', 'annA')
 MANY = '\n'.join(f'peer * announce route 10.{100 + i // 250}.{i % 250}.0/24 next-hop 2.2.2.2' for i in range(120))
@@ -110,12 +121,14 @@ def model(seq, version):
     buf = []
     changed = False
 
-    def apply(eff):
+    adder = {}
+
+    def apply(eff, c=None):
         nonlocal changed
         op = eff[0]
         if op == 'multi':
             for e in eff[1]:
-                apply(e)
+                apply(e, c)
             return
         if op == 'clear':
             for n in ribs:
@@ -128,6 +141,7 @@ def model(seq, version):
                 changed = True
                 if op == 'add':
                     ribs[n].add(pfx)
+                    adder[(n, pfx)] = c
                 else:
                     ribs[n].discard(pfx)
 
@@ -136,7 +150,7 @@ def model(seq, version):
         eff = CMD[c][4]
         if c == 'many':  # 120 announce lines, each a command of its own
             if not grouping:
-                apply(eff)
+                apply(eff, c)
             if ack:
                 expected += ['done'] * 120
                 who += [c] * 120
@@ -150,11 +164,11 @@ def model(seq, version):
             # buffered until "group end"; it is acknowledged when buffered and takes effect (on every peer of the
             # process) when the block ends - a member that cannot be parsed has no effect
             if kind == 'bare-add':
-                buf.append(('add', eff[1], ALL))
+                buf.append((('add', eff[1], ALL), c))
             elif kind == 'bare-del':
-                buf.append(('del', eff[1], ALL))
+                buf.append((('del', eff[1], ALL), c))
             elif kind in ('add', 'del'):
-                buf.append((kind, eff[1], ALL))
+                buf.append(((kind, eff[1], ALL), c))
             reply = None if (eff is None or kind == 'bare-bad') else 'done'
         elif kind == 'gstart':
             if grouping:
@@ -166,8 +180,8 @@ def model(seq, version):
             if not grouping:
                 reply = 'error'
             else:
-                for e in buf:
-                    apply(e)
+                for e, bc in buf:
+                    apply(e, bc)
                 buf = []
                 grouping = False
         elif kind in ('bare-add', 'bare-del', 'bare-bad'):
@@ -184,13 +198,13 @@ def model(seq, version):
             unacked += 1
             continue
         elif eff:
-            apply(eff)
+            apply(eff, c)
         if ack:
             expected.append(reply)
             who.append(c)
         else:
             unacked += 1
-    return expected, who, unacked, ribs, not changed
+    return expected, who, unacked, ribs, not changed, adder
 
 
 def match_replies(expected, unacked, got):
@@ -225,8 +239,29 @@ def rib_state(wd):
             continue
         rib = p.neighbor.rib.outgoing
         out[n] = (tuple(sorted(str(r.nlri) for r in rib.cached_routes())), tuple(sorted(str(r.nlri) for r in rib._new_nlri.values())),
-                  tuple(sorted(str(nl) for fam in rib._pending_withdraws.values() for nl, _ in fam.values())), len(rib._refresh_routes))
+                  tuple(sorted(str(nl) for fam in rib._pending_withdraws.values() for nl, _ in fam.values())), len(rib._refresh_routes),
+                  tuple(sorted((str(r.nlri), f'next-hop {r.nexthop} {r.attributes}') for r in rib.cached_routes())))
     return out
+
+
+_ALONE: dict = {}
+
+
+def alone(c, version):
+    """{neighbor: {prefix: attribute text}} after command c given alone to a fresh daemon (the reference for what the
+    routes of c look like when c comes after other commands)."""
+    key = (c, version)
+    if key not in _ALONE:
+        line = CMD[c][1] if version == 6 else CMD[c][2]
+        with World(CFG, env={'api.version': version}) as wd:
+            wd.settle()
+            wd.api_write((line + '\n').encode())
+            wd.settle()
+            wd.advance(0.05)
+            wd.settle()
+            st = rib_state(wd)
+        _ALONE[key] = {n: dict(st[n][4]) for n in st}
+    return _ALONE[key]
 
 
 def parse_replies(raw: bytes):
@@ -270,7 +305,7 @@ def run_sequence(args):
         kind = 'lost' if len(got) < len(norm) else ('extra' if len(got) > len(norm) else 'altered')
         viols.append((f'command-stream:{kind}', f'commands executed {got} != lines written {norm} (chunks at {list(cuts)})'))
     # (2) exactly one terminal reply per command, in order
-    expected, who, unacked, ribs, nothing_accepted = model(seq, version)
+    expected, who, unacked, ribs, nothing_accepted, adder = model(seq, version)
     terms_n = [l for l in complete if l in TERMINALS]
     bad = match_replies(expected, unacked, terms_n)
     if bad is not None:
@@ -285,6 +320,15 @@ def run_sequence(args):
         if cached != ribs[n]:
             sig = 'side-effect-of-refused-command' if nothing_accepted else 'rib-differs-from-model'
             viols.append((f'{sig}:{n}', f'commands {list(seq)}: Adj-RIB-Out of {n} holds {sorted(cached)}, the commands that succeeded say {sorted(ribs[n])}'))
+    # (3b) each route carries the attributes its own command gave it: the same text as when that command is given alone
+    for n in NEIGHBORS:
+        got_attrs = dict(after[n][4])
+        for pfx in sorted(ribs[n] & set(after[n][0])):
+            c = adder.get((n, pfx))
+            ref = alone(c, version).get(n, {}).get(pfx) if c and c != 'many' else None
+            if ref is not None and got_attrs.get(pfx) != ref:
+                viols.append((f'attributes-differ-from-command:{c}', f'commands {list(seq)}: {n} holds {pfx} with [{got_attrs.get(pfx)}], the command that announced it ({c}) alone gives [{ref}]'))
+                break
     if all(CMD[c][4] is None and CMD[c][3] == 'error' for c in seq) and before != after:
         viols.append(('side-effect-of-refused-command:queues', f'only refused commands {list(seq)} but RIB state changed {before} -> {after}'))
     if exc:
@@ -394,6 +438,8 @@ def plan(tier):
     for seq in itertools.product(CORE, repeat=3):
         add(seq, (), 6)
     for seq in itertools.product(BLOCK3, repeat=3):
+        add(seq, (), 6)
+    for seq in itertools.product(PARSE3, repeat=3):
         add(seq, (), 6)
     for seq in itertools.product(BLOCK4, repeat=4):
         add(seq, (), 6)
